@@ -49,6 +49,8 @@ def run(spec, ids):
     rc, out = sh('git status --porcelain', cwd='/repo'); assert out.strip() == '', 'repo dirty: ' + out
     rc, out = sh(f'git apply {dst}/patch.diff', cwd='/repo'); assert rc == 0, out
     results = {}
+    # evidence files describe the unchanged tree: keep them out of reach of runs on a changed tree
+    saved = {i: open(f'/verif/evidence/{i}.json').read() for i in ids if os.path.exists(f'/verif/evidence/{i}.json')}
     try:
         for i in ids:
             for tier in ['quick']:
@@ -58,6 +60,8 @@ def run(spec, ids):
                 results[f'{i}:{tier}'] = dict(exit=rc, lines=lines[:6], wall=round(time.time() - t, 1))
                 print(i, tier, rc, lines[:4])
     finally:
+        for i, txt in saved.items():
+            open(f'/verif/evidence/{i}.json', 'w').write(txt)
         sh('git checkout -- .', cwd='/repo')
         rc, out = sh('git status --porcelain', cwd='/repo'); assert out.strip() == '', out
     meta = json.load(open(f'{dst}/meta.json'))
